@@ -64,6 +64,8 @@ def run(chk, sc, invariants):
             kinds[k] = kinds.get(k, 0) + v
         if not chk.samples:
             chk.sample(dict(config=cfg, ops=[o["op"] for o in behs[0]["steps"][:6]], state_after=behs[0]["steps"][5]))
+        for d in s.get("drift", []):
+            chk.notes.setdefault("transcription_drift", []).append("CellOcc %s: behaviour %d step %d: %s" % (c, d["behaviour"], d["step"], d["what"]))
         for f in s["fails"]:
             chk.violation("replay:" + f["what"].split(" after ")[0],
                           "real cell occupancy diverges from CellOcc.tla (config %s) at step %d: %s" % (c, f["step"], f["what"]),
